@@ -8,6 +8,7 @@
 //!   modify       modify-heavy: the full request grid on orders in every status (C06)
 //!   redundant    repeated place/cancel/modify on every status, clock changes (C04)
 //!   reload       snapshot/reload at random points, lock-step continuation (C07)
+//!   mixed        everything at once: toggles, reloads, the modify grid, redundant requests, disciplined clock
 //!   wide         prices and volumes near the 2^32 bounds, big tick sizes
 //!   malformed    off-grid creations and off-grid modify prices (C12)
 //!   edge         as malformed, on a window of grid prices at the very bottom (0, tick, ..) or the very
@@ -112,6 +113,7 @@ impl Gen {
                 "toggle" => (35, 10, 5, 5, 8, 17, 12, 1, 0, 5, 2),
                 "redundant" => (22, 6, 8, 8, 8, 10, 3, 1, 0, 28, 6),
                 "reload" => (35, 8, 5, 5, 10, 18, 3, 1, 12, 3, 0),
+                "mixed" => (30, 8, 6, 6, 10, 20, 6, 1, 5, 6, 3),
                 "malformed" | "edge" => (40, 5, 10, 5, 8, 25, 2, 1, 2, 4, 0),
                 "ties" => (42, 8, 5, 5, 10, 22, 2, 1, 2, 3, 0),
                 "py" => (45, 10, 0, 0, 12, 24, 4, 0, 4, 0, 3),
